@@ -26,6 +26,7 @@ class FakeGate(Host):
     label = property(lambda s: s._label)
     gate_type = property(lambda s: s._gate_type)
     operands = property(lambda s: s._operands)
+    operator = property(lambda s: s._gate_type.operator)
 
     def __repr__(self):
         return f'Gate({self._label}, {self._gate_type}, {self._operands})'
